@@ -81,6 +81,12 @@ def spec_cases():
     for l, r in itertools.combinations(pool, 2):
         if Version(l) < Version(r):
             specs += [f"<{l}||>={r}", f"<={l}||>{r}", f"<{l}||>{r}", f">={l},<{r}", f">{l},<={r}"]
+    # pre-/dev-release lower bounds (requires-python of a package that supports a beta interpreter) under the upper
+    # bounds that make the range a ~= candidate, and some that do not
+    for l in ["3.9rc1", "3.13.0b1", "3.8.dev0", "3.8a1", "3.9.0rc2"]:
+        for r in ["4", "4.0", "3.14", "3.9", "3.10", "3.10.0", "3.13.1"]:
+            if Version(l) < Version(r):
+                specs += [f">={l},<{r}", f">{l},<{r}", f">={l},<={r}", f"<{l}||>={r}"]
     for name in ("python_version", "python_full_version"):
         for s in specs:
             yield {"name": name, "spec": s}
